@@ -3,16 +3,18 @@ Specification for C01: what a writer owes for every accepted write, keyed by *id
 (reader ids and write ids) instead of column indices.
 
 * Every accepted write gets the next write id `wid` (0, 1, 2 … in write order) and a pending row:
-  one slot per reader linked at that moment, in link order – `some None` for a reader that was
-  already closed (it did not accept), `none` (owed) for a reader that accepted.
+  one slot per reader linked at that moment, in link order – `some none` (*refused*) for a reader
+  that was already closed (it did not accept the write and will never answer it), `none` (owed)
+  for a reader that accepted; an accepting reader's slot becomes `some (some a)` once answered.
 * A reader answers its requests in FIFO order: `owed r` is the queue of write ids it accepted and
   has not answered yet.  `answer r a` pops the oldest id `w` and puts `a` into r's slot *of row w*
   – if that row is still pending and still has a slot of r (r was not unlinked since).  Closing a
   reader turns each entry of `owed r` into a deferred drop notice; `deliverDrop r` pops one and
   puts `dropped` into r's slot of that row.
 * `unlink r` removes r's slot from every pending row.
-* After every change complete rows at the head are emitted, in order: the `join` of the slots, or
-  `dropped` when no slot is left.  `closeW` emits `dropped` for every pending row.
+* After every change complete rows at the head are emitted, in order: the `join` of what the
+  ACCEPTING readers that are still linked answered (refused slots contribute nothing), or `dropped`
+  when no accepting reader of the write is left.  `closeW` emits `dropped` for every pending row.
 * A write with no accepting reader returns 0, gets no id and emits nothing.
 
 `emittedIds` is a ghost log (never read by `step`): the write ids of the emitted responses.
@@ -24,15 +26,26 @@ open Uniflow.Writer
 
 structure SRow where
   wid : Nat
-  slots : List (RId × Option Ans)
+  slots : List (RId × Cell)
 
 def SRow.cells (row : SRow) : Row := row.slots.map Prod.snd
 def SRow.readers (row : SRow) : List RId := row.slots.map Prod.fst
 
+/-- What the readers that accepted the write and are still linked answered, in link order. -/
+def SRow.answers (row : SRow) : List Ans :=
+  row.slots.filterMap fun p => match p.2 with
+    | some (some a) => some a
+    | _ => none
+
+/-- The response to a completed write: `dropped` when no accepting reader is left to answer,
+otherwise the join of the answers. -/
+def SRow.response (row : SRow) : Resp :=
+  if row.answers.isEmpty then .dropped else join row.answers
+
 /-- Row `row` still owes an answer of reader `r`. -/
 def SRow.owes (row : SRow) (r : RId) : Bool := row.slots.any fun p => p.1 == r && p.2.isNone
 
-def SRow.fill (row : SRow) (r : RId) (a : Ans) : SRow :=
+def SRow.fill (row : SRow) (r : RId) (a : Fill) : SRow :=
   { row with slots := row.slots.map fun p => if p.1 = r then (p.1, some a) else p }
 
 def SRow.drop (row : SRow) (r : RId) : SRow :=
@@ -54,10 +67,10 @@ def flush : List SRow → List SRow × List Resp × List Nat
   | [] => ([], [], [])
   | row :: rest =>
     if hasNil row.cells then (row :: rest, [], [])
-    else ((flush rest).1, respOf true row.cells :: (flush rest).2.1, row.wid :: (flush rest).2.2)
+    else ((flush rest).1, row.response :: (flush rest).2.1, row.wid :: (flush rest).2.2)
 
 /-- Put `a` into r's slot of the row with id `w`; `none` when there is no such owed slot. -/
-def credit (w : Nat) (r : RId) (a : Ans) : List SRow → Option (List SRow)
+def credit (w : Nat) (r : RId) (a : Fill) : List SRow → Option (List SRow)
   | [] => none
   | row :: rest =>
     if row.wid = w then (if row.owes r then some (row.fill r a :: rest) else none)
@@ -67,7 +80,7 @@ def credit (w : Nat) (r : RId) (a : Ans) : List SRow → Option (List SRow)
 def arrive (s : S) (w : Nat) (r : RId) (a : Ans) : S × Out :=
   if s.done then (s, { ret := .ok false })
   else if r ∉ s.linked then (s, { ret := .ok false })
-  else match credit w r a s.rows with
+  else match credit w r (some a) s.rows with
     | none => (s, { ret := .ok false })
     | some rows =>
       ({ s with rows := (flush rows).1, emittedIds := s.emittedIds ++ (flush rows).2.2 },
@@ -92,7 +105,7 @@ def step (s : S) : Step → S × Out
       let acc := accepting s.closed s.linked
       if acc.length > 0 then
         ({ s with rows := s.rows ++ [{ wid := s.nextW,
-                                       slots := s.linked.map fun r => (r, if s.closed r then some Ans.none else none) }],
+                                       slots := s.linked.map fun r => (r, if s.closed r then some none else none) }],
                   owed := fun r => if r ∈ acc then s.owed r ++ [s.nextW] else s.owed r,
                   nextW := s.nextW + 1 },
          { ret := .cnt acc.length, deliv := acc.map fun r => (r, v) })
